@@ -256,6 +256,33 @@ fn main() {
             let spec: Value = serde_json::from_str(&std::fs::read_to_string(&args[2]).unwrap()).unwrap();
             replay::fmt_roundtrip(&spec, std::path::Path::new(&args[3]));
         }
+        Some("w64-vectors") => {
+            // sccv w64-vectors <n> <seed> <out.json>: reference results of 64-bit arithmetic computed by Rust
+            use rand::{Rng, SeedableRng};
+            let n: usize = args[2].parse().unwrap();
+            let mut rng = rand::rngs::StdRng::seed_from_u64(args[3].parse().unwrap());
+            let special: Vec<i64> = vec![0, 1, -1, 2, -2, 10, -10, 255, 256, 65535, 65536, -65536, i32::MAX as i64, i32::MIN as i64,
+                (i32::MAX as i64) + 1, u32::MAX as i64, (u32::MAX as i64) + 1, i64::MAX, i64::MIN, i64::MIN + 1, i64::MAX - 1,
+                1 << 47, -(1 << 47), 1 << 48, 0x0000ffff0000ffff, 0x7fff0000ffff0000, 1000000000000000000, -999999999999999999];
+            let mut out = vec![];
+            for k in 0..n {
+                let pick = |rng: &mut rand::rngs::StdRng| -> i64 {
+                    match rng.gen_range(0..4) {
+                        0 => special[rng.gen_range(0..special.len())],
+                        1 => rng.gen_range(-1000..1000),
+                        2 => rng.r#gen::<i64>() >> rng.gen_range(0..63),
+                        _ => rng.r#gen::<i64>(),
+                    }
+                };
+                let (a, b) = if k < special.len() * special.len() && k < n / 2 { (special[k / special.len()], special[k % special.len()]) } else { (pick(&mut rng), pick(&mut rng)) };
+                let divdef = b != 0 && !(a == i64::MIN && b == -1);
+                out.push(json!({"a": ser_axcut::limbs(a), "b": ser_axcut::limbs(b),
+                    "add": ser_axcut::limbs(a.wrapping_add(b)), "sub": ser_axcut::limbs(a.wrapping_sub(b)), "mul": ser_axcut::limbs(a.wrapping_mul(b)),
+                    "divdef": divdef, "div": ser_axcut::limbs(if divdef { a / b } else { 0 }), "rem": ser_axcut::limbs(if divdef { a % b } else { 0 }),
+                    "lt": a < b, "le": a <= b, "dec": a.to_string(), "low8": (a as u64 & 0xff), "neg": ser_axcut::limbs(a.wrapping_neg())}));
+            }
+            std::fs::write(&args[4], Value::Array(out).to_string()).unwrap();
+        }
         Some("cdriver") => {
             // sccv cdriver <dir> <max number of arguments>: instantiate the repository's own C driver and io runtime
             let dir = &args[2];
